@@ -254,3 +254,116 @@ theorem lookup_of_mem_nodup {α} (rs : List (String × α)) (s : String) (r : α
       exact ih hn.2 h
 
 end Utv.C18
+
+namespace Utv.C18
+
+/-! ### where an accepted result comes from -/
+
+theorem seqM_ok_mem {α β} (p : α → Out β × Nat) (l : List α) (bs : List β) (h : (seqM p l).1 = .ok bs) :
+    ∀ a ∈ l, ∃ b ∈ bs, (p a).1 = .ok b := by
+  induction l generalizing bs with
+  | nil => intro a ha; cases ha
+  | cons x xs ih =>
+    obtain ⟨b, bs', h1, h2, rfl⟩ := (seqM_ok_cons p x xs bs).1 h
+    intro a ha
+    rcases List.mem_cons.1 ha with rfl | hm
+    · exact ⟨b, by simp, h1⟩
+    · obtain ⟨b', hb', h3⟩ := ih bs' h2 a hm
+      exact ⟨b', by simp [hb'], h3⟩
+
+theorem inCtx_ok {β} (e : Out Ctx) (p : Ctx → Out β × Nat) (b : β) (h : (inCtx e p).1 = .ok b) :
+    ∃ c, e = .ok c ∧ (p c).1 = .ok b := by
+  cases e with
+  | err f => simp [inCtx] at h
+  | ok c => exact ⟨c, rfl, h⟩
+
+theorem mem_indexed {α} (l : List α) (i : Nat) (x : α) (h : x ∈ l) : ∃ j, (j, x) ∈ indexed i l := by
+  induction l generalizing i with
+  | nil => cases h
+  | cons y ys ih =>
+    rcases List.mem_cons.1 h with rfl | hm
+    · exact ⟨i, by simp [indexed]⟩
+    · obtain ⟨j, hj⟩ := ih (i + 1) hm
+      exact ⟨j, by simp [indexed, hj]⟩
+
+/-- the first entry with a given key survives `dedupFst` -/
+theorem dedupFst_first {α} (l : List (String × α)) (s : String) (a : α) (h : l.lookup s = some a) :
+    (s, a) ∈ dedupFst l := by
+  induction l with
+  | nil => simp [List.lookup] at h
+  | cons x xs ih =>
+    rcases x with ⟨s', a'⟩
+    simp only [List.lookup] at h
+    simp only [dedupFst, List.mem_cons]
+    split at h
+    · rename_i heq
+      cases h
+      have : s = s' := by simpa using heq
+      subst this
+      exact Or.inl rfl
+    · rename_i hne
+      right
+      refine List.mem_filter.2 ⟨ih h, ?_⟩
+      have : s ≠ s' := by simpa using hne
+      simpa using this
+
+theorem filterMap_lookup (fields : List (String × Ty)) (kvs : List (Key × Val)) (f : String) (ft : Ty) (sub : Val)
+    (hf : fields.lookup f = some ft) (hk : lookupKey (.str f) kvs = some sub) :
+    (kvs.filterMap fun (kv : Key × Val) =>
+      match kv.1 with
+      | .str s => (fields.lookup s).map fun t => (s, t, kv.2)
+      | .int _ => none).lookup f = some (ft, sub) := by
+  induction kvs with
+  | nil => simp [lookupKey] at hk
+  | cons kv rest ih =>
+    rcases kv with ⟨k, v⟩
+    simp only [lookupKey] at hk
+    split at hk
+    · rename_i heq
+      cases hk
+      subst heq
+      simp [List.filterMap_cons, hf, List.lookup]
+    · rename_i hne
+      simp only [List.filterMap_cons]
+      cases k with
+      | int i => simpa using ih hk
+      | str s =>
+        simp only
+        cases hl : fields.lookup s with
+        | none => simpa [hl] using ih hk
+        | some t =>
+          have hsf : (f == s) = false := by
+            have : s ≠ f := fun he => hne (by rw [he])
+            simpa using fun he => this he.symm
+          simp only [Option.map_some, List.lookup, hsf]
+          exact ih hk
+
+theorem knownItems_mem (fields : List (String × Ty)) (kvs : List (Key × Val)) (f : String) (ft : Ty) (sub : Val)
+    (hf : fields.lookup f = some ft) (hk : lookupKey (.str f) kvs = some sub) :
+    (f, ft, sub) ∈ knownItems fields kvs :=
+  dedupFst_first _ f (ft, sub) (filterMap_lookup fields kvs f ft sub hf hk)
+
+theorem wrapSeq_mem (m : Mode) (v : Val) (vs : List Val) (hl : isList v = false) (hne : v ≠ .dict [])
+    (hw : wrapSeq m v = some vs) : v ∈ vs := by
+  cases v with
+  | list l => simp [isList] at hl
+  | tok a =>
+    simp only [wrapSeq] at hw
+    split at hw
+    · cases hw
+    · cases hw; simp
+  | none =>
+    simp only [wrapSeq] at hw
+    split at hw
+    · cases hw
+    · cases hw; simp
+  | dict kvs =>
+    cases kvs with
+    | nil => exact absurd rfl hne
+    | cons kv rest =>
+      simp only [wrapSeq] at hw
+      split at hw
+      · cases hw
+      · cases hw; simp
+
+end Utv.C18
